@@ -373,7 +373,7 @@ func (st *State) wrapCheck(x *ssa.BinOp, f lin.Form) Val {
 		if st.Prove(f) && (hi >= lin.PosInf || st.Prove(lin.Const(hi).Sub(f))) {
 			return IntVal(f)
 		}
-		if st.ip.AssumeNoTruncation {
+		if st.ip.AssumeNoTruncation && !st.ip.StrictWrap {
 			return IntVal(f)
 		}
 		return st.opaqueInt(x, lo, hi)
